@@ -146,6 +146,11 @@ type simCreds struct {
 
 func (c *simCreds) GetRequestMetadata(ctx context.Context, uri ...string) (map[string]string, error) {
 	c.s.instant(c.rpc, 'c', 0, "creds", func(e *Event) { e.Note = strings.Join(uri, ",") })
+	if c.spec.DelayN > 0 {
+		ev := c.s.begin(c.rpc, 'c', 9, "creds-delay")
+		c.s.sleep(time.Duration(c.spec.DelayN))
+		c.s.end(ev, nil)
+	}
 	if c.spec.Fail {
 		return nil, fmt.Errorf("credential lookup failed")
 	}
@@ -419,7 +424,7 @@ func (s *Sim) clientOp(rs *rpcState, g int, st grpc.ClientStream, op Op) {
 			if i > 0 {
 				simrt.Yield(fmt.Sprintf("c%d.%d:recv", r.ID, g))
 			}
-			if err := s.clientRecv(rs, g, st, false); err != nil {
+			if err := s.clientRecv(rs, g, st, op.Ref == "junk"); err != nil {
 				break
 			}
 		}
@@ -873,17 +878,16 @@ func (s *Sim) streamHandler(rs *rpcState, stream grpc.ServerStream) (err error) 
 		var opErr error
 		switch op.K {
 		case "recv":
-			opErr = s.handlerRecv(rs, stream)
+			opErr = s.handlerRecv(rs, stream, op.N == 1)
 		case "recvall":
-			max := op.N
-			if max <= 0 {
-				max = 40
-			}
+			max := 40
 			for i := 0; i < max; i++ {
 				if i > 0 {
 					simrt.Yield(name + ":recv")
 				}
-				if e := s.handlerRecv(rs, stream); e != nil {
+				// Ref "junk": every destination is pre-filled (a handler that
+				// re-uses its message value across receives)
+				if e := s.handlerRecv(rs, stream, op.Ref == "junk"); e != nil {
 					if classify(e).Class != "EOF" {
 						opErr = e
 					}
@@ -948,10 +952,13 @@ func (s *Sim) streamHandler(rs *rpcState, stream grpc.ServerStream) (err error) 
 	return nil
 }
 
-func (s *Sim) handlerRecv(rs *rpcState, stream grpc.ServerStream) error {
+func (s *Sim) handlerRecv(rs *rpcState, stream grpc.ServerStream, junk bool) error {
 	r := rs.r
-	dst := newDst(false, r.DynH)
+	dst := newDst(junk, r.DynH)
 	ev := s.begin(r.ID, 'h', 0, "recv")
+	if junk {
+		ev.Flags = map[string]string{"junkdst": "1"}
+	}
 	err := guard(ev, func() error { return stream.RecvMsg(dst) })
 	if err == nil {
 		ev.GotMsg = proto.Clone(asGen(dst))
@@ -993,7 +1000,7 @@ func (s *Sim) unaryHandler(rs *rpcState, ctx context.Context, dec func(any) erro
 		simrt.Yield(name + ":" + ops[i].K)
 		s.unaryOp(rs, ctx, ops[i])
 	}
-	req := newDst(false, r.DynH)
+	req := newDst(i < len(ops) && ops[i].K == "decode" && ops[i].N == 1, r.DynH)
 	if i < len(ops) && ops[i].K == "decode" {
 		simrt.Yield(name + ":decode")
 		ev := s.begin(r.ID, 'h', 0, "recv")
